@@ -31,6 +31,8 @@ public:
   [[nodiscard]] ConceptID RegisterEntity(EntityUID uid, CstType type);
 
   bool TryAlias(const std::string& oldValue, const std::string& newValue, CstType type);
+  void ReserveAlias(const std::string& name);
+  void FreeAlias(const std::string& name) noexcept;
   void Erase(EntityUID target, const std::string& name) noexcept;
   void Clear() noexcept;
 
